@@ -482,7 +482,7 @@ Record parsed := {
 Definition size (st : pstate) : nat :=
   length (rest st) + (if tok_eqb (kind st) TEOF then 0 else 1).
 
-Definition program_fuel (ts : list token) : nat := 2 * length ts + 4.
+Definition program_fuel (ts : list token) : nat := 3 * length ts + 4.
 
 Definition parse_from (fuel : nat) (v : pvariant) (ts : list token) : presult parsed :=
   let st0 := init ts in
